@@ -4,6 +4,7 @@ add("C09", "checks/c09_isolation.c", ["default-asan", "default-plain", "c89-plai
     "parameters, compound paths, optionally followed by pending bytes + an overrunning chunk and/or a zero-length flush; B from the same "
     "kinds (never a status or error-queue query; error queue of 64 entries so no overflow). The handler/parameter/error/flush event log and "
     "output bytes of B on the used context are compared with B on a fresh context (SRQ events excluded); distinct_nontrivial = distinct (A, B) pairs",
+    rule_more="units within one message; direct SCPI_Parse on one re-used line buffer; overlapping table entries; overrun with pending complete units; context initialised again between A and B; a line parsed directly between two pieces of B; decoy context",
     technique="differential runtime monitor across histories: trace of B after A on the same context vs trace of B alone on a fresh context",
     level_text="exploration by execution over generated ordered pairs and longer sequences (3x10^5 quick / 5x10^6 thorough per flavour); each kind of 'dirty' history (errors, unfinished block, compound path, overrun with pending bytes) is counted and required to occur",
     level_note="trusted: the fresh-context run as reference; effects flowing through status registers and the error queue are excluded by construction (no such queries in B, large queue)",
